@@ -6,7 +6,7 @@ VERIF = os.path.dirname(os.path.dirname(os.path.abspath(__file__)))
 
 CHECKS = {
  "C06": dict(level="exploration", design="5/C06", technique="differential monitor: library SCALE codec vs independent reference V14 codec on generated registries, plus hand-written anchor byte vectors",
-   text="Every generated registry (all definition kinds, all compact id classes, hostile strings, boundary lengths) is encoded by the library and by an independent encoder written from the V14 layout and compared byte for byte; each decoder reads the other's bytes. Sampled, not exhaustive: holds on the registries generated.",
+   text="Every generated registry (all definition kinds, all compact id classes, hostile strings, boundary lengths) is encoded by the library and by an independent encoder written from the V14 layout and compared byte for byte; each decoder reads the other's bytes, from a slice and from a streaming input of unknown length; five registries of 1025 ... 20000 entries are included. Sampled, not exhaustive: holds on the registries generated.",
    note="Trusted: the reference codec (anchored by hand-derived byte vectors), derived PartialEq on registry types."),
  "C07": dict(level="exploration", design="5/C07", technique="round-trip / determinism / injectivity monitors over generated registries and their single-edit neighbours",
    text="For each generated registry: decode(encode(r)) == r with exact consumption (also with random trailers), encode deterministic, every single-edit neighbour encodes differently, and a run-wide exact map of short encodings reports collisions between unequal registries.",
@@ -15,13 +15,13 @@ CHECKS = {
    text="Serialised JSON of every generated registry equals the Value built by an independent writer from the documented key names / tags / omission rules; keys are checked against the vocabulary; from_value/from_str round trips give back the registry and agree with the SCALE round trip.",
    note="Bit-sequence member names are pinned as released (bit_store_type / bit_order_type); see DESIGN.md C08 note."),
  "C10": dict(level="exploration", design="5/C10", technique="reference-model monitor: retain vs independent reachability closure + id-renaming check on generated well-formed registries and filters",
-   text="For each generated (well-formed registry, filter) pair the result of retain is checked against a specification-level reference: result dense and closed, map keys == reachability closure over all reference positions incl. type parameters, map bijective onto 0..n, every retained entry == original with ids renamed. Panics/crashes inside retain are violations.",
+   text="For each generated (well-formed registry, filter) pair the result of retain is checked against a specification-level reference: result dense and closed, map keys == reachability closure over all reference positions incl. type parameters, map bijective onto 0..n, every retained entry == original with ids renamed. One case in five uses a stateful FnMut filter; one in sixty is a long reference chain (up to 500 / 2000 hops) filtered at one end. Panics/crashes inside retain are violations.",
    note="Trusted: refretain.rs (written from the statement). The new numbering order is not pinned. Registries up to 300 entries."),
  "C12": dict(level="exploration", design="5/C12", technique="lock-step list-model monitor over random operation histories + structural invariant hooks (verif_invariants) after every operation",
-   text="Random histories of intern_or_get/get/resolve/elements on Interner<u8>/Interner<String> and register_type/next_type_id/get/finish on PortableRegistryBuilder are executed in lock step with a Vec+linear-search model; every return value is compared; the map/vec bijection hook runs after every operation.",
+   text="Random histories of intern_or_get/get/resolve/elements on Interner<u8>/Interner<String> and register_type/next_type_id/get/finish on PortableRegistryBuilder are executed in lock step with a Vec+linear-search model; every return value is compared; the map/vec bijection hook runs after every operation. Value pools are half single-edit neighbours of each other; one history in six grows the table past 16 / 32 entries. Thorough adds the workload under ASan and a Miri slice.",
    note="Trusted: the list model. Symbols are obtained through get (immutable borrow) and from a larger foreign interner for out-of-range resolution."),
  "C18": dict(level="exploration", design="5/C18", technique="exhaustive enumeration of inputs over a class-representative alphabet against an explicit identifier DFA; accessor/display monitors",
-   text="All strings up to length 6 (quick) / 7 (thorough) over a 10-symbol class-representative alphabet as single segments, all segment lists up to length 3 over a 40-string pool, Path::new over 40x1649 (ident, module) pairs and seeded replacement tables are run through Path::from_segments/new/new_with_replace and compared with a DFA oracle, including the index of the first offending segment and ident/namespace/display of the result.",
+   text="All strings up to length 6 (quick) / 7 (thorough) over an 11-symbol class-representative alphabet (incl. a non-ASCII letter and a Unicode numeric) as single segments, all segment lists up to length 3 over a 40-string pool, Path::new over 40x1649 (ident, module) pairs and seeded replacement tables are run through Path::from_segments/new/new_with_replace and compared with a DFA oracle, including the index of the first offending segment and ident/namespace/display of the result; segments are fed through iterators with exact / inexact / no size hint, and the whole workload runs a second time in a build profile without debug assertions.",
    note="Exhaustive only within the stated alphabet and length bound; replacement tables are sampled."),
  "C01": dict(level="exploration", design="5/C01", technique="invariant walker (dense + closed) at quiescent points over every registry produced by registration histories, the runtime builder, retain and decode; hook invariants after every operation",
    text="Every registry handed out during seeded registration histories over a compiled-in type corpus (in place after each op, frozen, prefixes, after decode / JSON round trip, after retain) and by PortableRegistryBuilder histories is walked: entry i carries id i, resolve(i) is that entry, every mentioned id at every reference position resolves. Registry/interner structural hooks run after every op.",
@@ -36,10 +36,10 @@ CHECKS = {
    text="Each snapshot is an entry-for-entry prefix of the next; every id ever returned still resolves to the definition it had; replaying a history (same process and two separate processes) gives identical bytes; registering the same roots in 3 random other orders gives a registry for which an id bijection is constructed from the roots and checked total, injective and content preserving.",
    note="Numbering order itself is never pinned."),
  "C14": dict(level="fault_enumeration", design="5/C14", technique="fault-injection monitor: all truncations and all single-bit flips (plus insert/delete/slot-overwrite classes) of valid encodings through decode under catch_unwind, a counting allocator, re-encode/resolve oracles; ASan and Miri slices in the thorough tier",
-   text="For every base input all truncations, all single-bit flips, every byte insert/delete/duplicate position and every length/id/option/tag slot x 17 hostile encodings are decoded; plus splices, random bytes, fault sequences, lying nested lengths and JSON truncation/byte/structural faults. Observed per input: panic (catch_unwind), abort/signal (child process), peak heap <= 128*len+256KiB, accepted => re-encodes to exactly the consumed bytes, resolve answers none out of range. Thorough adds the same workload under AddressSanitizer and a Miri slice.",
+   text="For every base input all truncations, all single-bit flips, every byte insert/delete/duplicate position and every length/id/option/tag slot x 17 hostile encodings are decoded; plus splices, random bytes, fault sequences, lying nested lengths and JSON truncation/byte/structural faults. Observed per input (slice input; a slice of them also through a streaming input): panic (catch_unwind), abort/signal (child process), peak heap <= 128*len+256KiB, accepted => re-encodes to exactly the consumed bytes, resolve answers none out of range. Thorough adds the same workload under AddressSanitizer and a Miri slice.",
    note="Enumerated completely only for truncations/bit flips/slot overwrites of the generated base inputs; the memory bound is a fixed calibrated constant; a clean sanitizer run is 'no report on N inputs', not memory safety."),
  "C19": dict(level="exploration", design="5/C19", technique="external-validator monitor: python jsonschema Draft-07 validation of serialised registries against schemars::schema_for!(PortableRegistry)",
-   text="The schema is generated by the real code built with the schema feature, checked with check_schema, and every serialised RegGen registry (all definition kinds, absent/present/empty optional parts, null skipped parameter, u32::MAX ids, index 255, hostile strings) is validated by an independent validator.",
+   text="The schema is generated by the real code built with the schema feature, checked with check_schema, and every serialised RegGen registry (all definition kinds, absent/present/empty optional parts, null skipped parameter, u32::MAX ids, index 255, hostile strings) is validated by an independent validator; the schema is generated by builds with `schema` on and bit-vec on / off (thorough: also docs on).",
    note="Trusted: python jsonschema 4.26."),
  "C13": dict(level="exploration", design="5/C13", technique="compiler-event monitor: generated positive programs compiled one by one against the rlib built from /repo (rustc JSON diagnostics as event log), accepted programs linked and run to observe type_info() of each instantiation",
    text="Each generated generic definition of the supported grammar (direct / container / PhantomData / associated-type / self-referential uses; lifetimes, const parameters, defaults, where clauses, bounds(..), skip_type_params, codec skip / compact / encoded_as members; four shapes each; seeded combinations) must compile and be usable for instantiations that deliberately use types WITHOUT TypeInfo for skipped parameters and skipped members; running the accepted programs must show the declared Some/None parameter pattern.",
@@ -51,13 +51,13 @@ CHECKS = {
    text="Random scripts drive TypeBuilder / Fields / FieldBuilder / Variants / VariantBuilder and the plain constructors with varying legal setter orders in portable form (runtime strings/ids) and compile-time form (member types from a fixed set incl. PhantomData instantiations and a compact member); the built Type must equal the supplied arguments element by element, minus PhantomData members, with docs kept per setter kind and feature. All definitions reachable from ~480 corpus types are scanned for a PhantomData listed as field or tuple element.",
    note="Each setter at most once per builder; wrappers of PhantomData are asserted neither way."),
  "C20": dict(level="exploration", design="5/C20", technique="compiler-event monitor: an enumerated negative grammar of ill-formed programs, each compiled on its own next to a positive twin; offline oracle over the rustc diagnostics (must be rejected with an error located in the construct)",
-   text="Every public way to obtain each builder typestate (constructors, Type::builder*, Field::builder, Default::default() at every state parameter) x every finisher with one required part missing or of the wrong kind (no path, variant without index, field without type, named among unnamed, unnamed among named; compile-time and portable form), and the container-level derive errors (union, unknown keys, repeated bounds/skip_type_params/capture_docs/crate in one or two attributes, invalid capture_docs values, bounds(..) leaving a parameter unbound). The twin must compile, the negative must not; a negative that compiles is run and its outcome recorded.",
+   text="Every public way to obtain each builder typestate (constructors, Type::builder*, Field::builder, Default::default() at every state parameter) x every finisher with one required part missing or of the wrong kind (no path, variant without index, field without type, named among unnamed, unnamed among named; compile-time and portable form), and the container-level derive errors (union, unknown keys, repeated bounds/skip_type_params/capture_docs/crate in one or two attributes, invalid capture_docs values, bounds(..) leaving a parameter unbound). The twin must compile, the negative must not (a negative that compiles is a violation whatever its twin does, and is run to record the outcome); a derive negative must be rejected by the derive itself (proc-macro error), not by rustc inside an emitted impl.",
    note="For the typestate half no scale-info code executes (rustc type-checks the API). Unknown keys on fields/variants are outside the statement."),
  "C03": dict(level="exploration", design="5/C03", technique="generated-program monitor: values of generated derive(TypeInfo, Encode) definitions are encoded by the codec and read back by a schema-directed reference decoder that knows only the registry; compared with the generator's declaration model",
-   text="A seeded generator emits struct/enum definitions over the grammar of C03 (all shapes, generics, recursion, PhantomData, lifetimes/const parameters; skip, compact, index, encoded_as, discriminants, rename); the harness is compiled against /repo; for each instantiation boundary-heavy values are encoded and decoded from the PortableRegistry alone: exact consumption, same variant identifier, field identifiers, order and leaves; the metadata index must be the first byte.",
+   text="A seeded generator emits struct/enum definitions over the grammar of C03 (all shapes, generics, recursion, PhantomData, lifetimes/const parameters; skip, compact, index, encoded_as, discriminants, rename); the harness is compiled against /repo; for each instantiation boundary-heavy values are encoded and decoded from the PortableRegistry alone: exact consumption, same variant identifier, field identifiers, order and leaves; the metadata index must be the first byte. A quarter as many cases register several types in one register_types call and decode through the id handed back per position.",
    note="Trusted: valdec.rs (SCALE rules from the statement), the generator's Model emission, parity-scale-codec's derive as ground truth for bytes."),
  "C04": dict(level="exploration", design="5/C04", technique="reference-decoder monitor over every built-in impl family: codec-encoded values decoded from the registry description alone and compared with documented-shape models",
-   text="Every std type with type info named in C04 (each member of each macro family, nested to depth 4 by seeded expressions) is exercised with boundary-heavy values; the schema-directed decoder must consume the encoding exactly and reproduce the documented shape (Option 0/1, Result 0/1, BTreeMap as sequence of pairs, Duration (u64,u32), NonZero wrapper, Range {start,end}, Cow wrapper, transparent wrappers, PhantomData empty, BitVec bit list by store width and Lsb0/Msb0). char and 19/20-tuples: shape only.",
+   text="Every std type with type info named in C04 (each member of each macro family, nested to depth 4 by seeded expressions) is exercised with boundary-heavy values; the schema-directed decoder must consume the encoding exactly and reproduce the documented shape (Option 0/1, Result 0/1, BTreeMap as sequence of pairs, Duration (u64,u32), NonZero wrapper, Range {start,end}, Cow wrapper, transparent wrappers, PhantomData empty, BitVec bit list by store width and Lsb0/Msb0). char and 19/20-tuples: shape only. Batch registrations (register_types) are decoded through the ids handed back per position.",
    note="BitVec values are exercised natively only (bitvec's own pointer code trips Miri)."),
  "C09": dict(level="exploration", design="5/C09", technique="generated-program monitor under two configurations: type_info() of generated definitions vs the generator's declaration model (path, parameters, members, type names, docs) with the docs feature off and on",
    text="The generator keeps the AST of every definition it writes (nested and raw-named modules, raw identifiers, generics with bounds/defaults/const/lifetimes, replace_segment, skip_type_params, rename, compact, skip, PhantomData, docs in both syntaxes with 0/1/2 leading spaces and hostile content, all capture_docs values) and emits the expected metadata by the rules of C09; the harness is built twice (docs off/on) and every instantiation is compared.",
